@@ -105,6 +105,116 @@ theorem same_rendering_ctor (a : CtorArgs) (specs : List FieldSpec) (t : Tbl) (h
       cases visOf t.fmt <;> rfl
   · exact hi.fields_eq.symm
 
+/-- The format read after the next printing, both routes. Print the table (lines `ls`, state
+`t'`); feed the string reported *before* that printing back through the setter or — for natural
+limits — the constructor; print the result: it prints the same `ls` and then reports exactly the
+same format string as `t'`: same columns with the same negotiated widths, same limits or the
+same omission of limits. -/
+theorem format_after_print (a : CtorArgs) (specs : List FieldSpec) (t t' : Tbl) (ls : List Line)
+    (ha : a.fields = some specs) (hn : ∀ sp ∈ specs, NameOk sp.name) (hr : Reach a t)
+    (ht : render t = .ok (t', ls)) :
+    (∃ t1 t1', applySetter t (fmtToStr t.fmt) = .ok t1 ∧ render t1 = .ok (t1', ls) ∧
+      fmtToStr t1'.fmt = fmtToStr t'.fmt) ∧
+    (NatLim t.fmt → ∃ t2 t2',
+      mkTable { a with fmt := some (fmtToStr t.fmt), limits := Option.none, skip := Option.none } = .ok t2 ∧
+      render t2 = .ok (t2', ls) ∧ fmtToStr t2'.fmt = fmtToStr t'.fmt) := by
+  have hi := reach_inv a specs ha t hr
+  have hne : t.fmt.cols ≠ [] := by
+    obtain ⟨tls, ws, nT, body, R⟩ := render_elim ht
+    intro e
+    have := finalWidths_cols _ _ _ R.ws_eq
+    rw [e] at this
+    exact R.ws_ne (by simpa using this)
+  have hp := parseFmt_fmtToStr t.fmt hne (inv_colNameOk hi hn)
+  -- how the limits read back relate to the table's own
+  have hvis : ∀ (dflt : Option Int × Option Int),
+      (visOf t.fmt = Option.none → dflt = (t.fmt.limF, t.fmt.limL) ∨
+        ∀ tls, mkTableLines (breakFields t.fmt.cols) Option.none t.records = .ok tls →
+          applyLimits t.fmt.limF t.fmt.limL tls t.records.length = (tls, 0)) →
+      let l := match visOf t.fmt with | some l => l | Option.none => dflt
+      (l.1 = t.fmt.limF ∧ l.2 = t.fmt.limL) ∨
+        ∀ tls, mkTableLines (breakFields t.fmt.cols) Option.none t.records = .ok tls →
+          (applyLimits t.fmt.limF t.fmt.limL tls t.records.length).2 ≤ 0 := by
+    intro dflt hd
+    cases hv : visOf t.fmt with
+    | none =>
+      simp only
+      rcases hd hv with e | e
+      · left; rw [e]; exact ⟨rfl, rfl⟩
+      · right; intro tls htls; rw [e tls htls]; exact Int.le_refl 0
+    | some l =>
+      simp only
+      unfold visOf at hv
+      split at hv
+      · cases hv
+      · cases hF : t.fmt.limF with
+        | none =>
+          right; intro tls _; rw [applyLimits_none_left]; exact Int.le_refl 0
+        | some x =>
+          cases hL : t.fmt.limL with
+          | none => right; intro tls _; rw [applyLimits_none_right]; exact Int.le_refl 0
+          | some y =>
+            rw [hF, hL] at hv
+            simp only [Option.some.injEq] at hv
+            subst hv
+            left; exact ⟨rfl, rfl⟩
+  constructor
+  · obtain ⟨t1, h1, _, _, hc1, hl1⟩ := same_rendering_setter a specs t ha hn hr hne
+    have hshape : t1.records = t.records ∧ t1.header = t.header ∧ t1.footer = t.footer ∧
+        (t1.fmt.limF, t1.fmt.limL) = (match visOf t.fmt with | some l => l | Option.none => (t.fmt.limF, t.fmt.limL)) := by
+      have hcols := setterCols_pcolOf t.fmt.fields t.fmt.cols hi.colsOk
+      unfold applySetter at h1
+      simp only [hp, pfmtOf, hcols, bind, Except.bind, Except.ok.injEq] at h1
+      subst h1
+      refine ⟨rfl, rfl, rfl, ?_⟩
+      cases visOf t.fmt <;> rfl
+    obtain ⟨e1, e2, e3, e4⟩ := hshape
+    have hlim := hvis (t.fmt.limF, t.fmt.limL) (fun _ => Or.inl rfl)
+    simp only at hlim
+    rw [← e4] at hlim
+    obtain ⟨t1', hr1, hs1⟩ := fmt_after_print hi.widths e1 e2 e3 hc1 (fun tls _ => hl1 tls _) hlim ht
+    exact ⟨t1, t1', h1, hr1, hs1⟩
+  · intro hnat
+    obtain ⟨t2, h2, _, _, hc2⟩ := same_rendering_ctor a specs t ha hn hr hne hnat
+    have hshape : t2.records = t.records ∧ t2.header = t.header ∧ t2.footer = t.footer ∧
+        (t2.fmt.limF, t2.fmt.limL) = (match visOf t.fmt with | some l => l | Option.none => (Option.none, Option.none)) := by
+      have hcols := ctorCols_pcolOf (mkFields 0 specs) t.fmt.cols (by rw [← hi.fields_eq]; exact hi.colsOk)
+      have hnovp : (t.fmt.cols.map pcolOf).any (fun p => p.valuePath.isSome) = false := by simp [pcolOf]
+      unfold mkTable at h2
+      simp only [hp, pfmtOf, ha, hi.nodup, hnovp, hcols, bind, Except.bind, Bool.false_eq_true, if_false,
+        Except.ok.injEq] at h2
+      subst h2
+      refine ⟨hi.records_eq.symm, hi.header_eq.symm, ?_, ?_⟩
+      · rw [hi.footer_eq]; rfl
+      · cases visOf t.fmt <;> rfl
+    obtain ⟨e1, e2, e3, e4⟩ := hshape
+    have hskip : visOf t.fmt = Option.none → ((Option.none : Option Int), (Option.none : Option Int)) = (t.fmt.limF, t.fmt.limL) ∨
+        ∀ tls, mkTableLines (breakFields t.fmt.cols) Option.none t.records = .ok tls →
+          applyLimits t.fmt.limF t.fmt.limL tls t.records.length = (tls, 0) := by
+      intro hv
+      right
+      have hsk : t.fmt.anySkipped = some false := by
+        unfold visOf at hv
+        split at hv
+        · assumption
+        · split at hv <;> cases hv
+      exact hi.skip hnat hsk
+    have hlim := hvis (Option.none, Option.none) hskip
+    simp only at hlim
+    rw [← e4] at hlim
+    have hl2 : ∀ tls, mkTableLines (breakFields t.fmt.cols) Option.none t.records = .ok tls →
+        applyLimits t2.fmt.limF t2.fmt.limL tls t.records.length
+          = applyLimits t.fmt.limF t.fmt.limL tls t.records.length := by
+      intro tls htls
+      have := limits_of_visOf t hi.skip true (fun _ => hnat) tls htls
+      simp only [if_true] at this
+      have e4a : t2.fmt.limF = _ := congrArg Prod.fst e4
+      have e4b : t2.fmt.limL = _ := congrArg Prod.snd e4
+      rw [e4a, e4b]
+      exact this
+    obtain ⟨t2', hr2, hs2⟩ := fmt_after_print hi.widths e1 e2 e3 hc2 hl2 hlim ht
+    exact ⟨t2, t2', h2, hr2, hs2⟩
+
 /-- Empty formats change nothing. `""`, `";"` and `";;"` are accepted in every reachable state and
 leave fields, columns (modifiers, break-by marks, bounds) and limits as they are — only the
 negotiated widths and the skipped-lines flag are forgotten — and the table prints the same lines. -/
@@ -120,6 +230,17 @@ theorem empty_noop (a : CtorArgs) (specs : List FieldSpec) (t : Tbl) (ha : a.fie
   unfold applySetter
   simp only [hp, bind, Except.bind]
   rfl
+
+/-- Field-less tables. A table built without `fields` (columns `col_1 …`, or the dummy column of
+an empty table) is exactly the table built with those names as `fields`; the names are expressible.
+Hence every theorem above applies to it (with `a` carrying the names — which is how the
+constructor route has to be taken for such a table: see the report). -/
+theorem fieldless (a : CtorArgs) (ha : a.fields = Option.none) (t : Tbl) (h : mkTable a = .ok t) :
+    mkTable { a with fields := some (specsOf t.fmt.fields) } = .ok t ∧
+    (∀ sp ∈ specsOf t.fmt.fields, NameOk sp.name) ∧
+    Reach { a with fields := some (specsOf t.fmt.fields) } t :=
+  have h' := mkTable_fieldless a ha t h
+  ⟨h'.1, h'.2, Reach.new t h'.1⟩
 
 /-- The invariants behind the three theorems hold after every history: printing never depends on
 the stored widths, and a `False` skipped-lines flag is the truth about the table. -/
